@@ -1,17 +1,33 @@
-(* Ids.v — model of packet identifier allocation: uniqid.go (newID on the atomic 32-bit counter
-   idLast, truncated to 16 bits, zero skipped) and its use in publish.go / subscribe.go /
-   unsubscribe.go (a caller-provided Message.ID is used unchanged). *)
+(* Ids.v — model of packet identifier allocation (property C15).
+
+   Go code modelled:
+     uniqid.go:27-29   initID   idLast := rand in 1..0xFFFE (any start value is allowed here)
+     uniqid.go:31-37   newID    id := uint16(atomic.AddUint32(&c.idLast, 1)); if id == 0 { return c.newID() }
+     publish.go:136-138         if message.ID == 0 { message.ID = c.newID() }   (any QoS, also QoS 0)
+     subscribe.go:72, unsubscribe.go:48   id := c.newID()
+   idLast is a uint32 (client.go:47): the addition wraps mod 2^32, uint16(...) keeps the low 16 bits.
+
+   Two renderings of the same code:
+     * sequential ([new_id_fuel], [new_id], [run_seq]): newID as written, recursion with fuel;
+     * concurrent ([run_conc]): any number of callers, a schedule says who performs the next
+       atomic AddUint32 (one schedule entry = one atomic step of that caller); a caller whose
+       increment produced a zero low half is still inside newID and increments again at its
+       next turn (other callers may get in between).
+   Specification side: the closed form [issued] of the identifier sequence and the executable
+   predicates over observable histories ([nonzero_ok], [young_ok], [strict_ok], [given_kept]).
+   No proofs here (Ids_proofs.v). *)
 From MQ Require Import Base.
 Open Scope N_scope.
 
 Definition M32 : N := 4294967296.          (* 2^32: idLast is a uint32 *)
-Definition M16 : N := 65536.               (* uint16(...) *)
+Definition M16 : N := 65536.               (* 2^16: uint16(...) *)
+Definition P16 : N := 65535.               (* number of usable identifiers 1..65535 *)
 
-(* atomic.AddUint32(&c.idLast, 1): new counter value *)
+(* atomic.AddUint32(&c.idLast, 1): the new counter value, which is also what the call returns *)
 Definition add1 (last : N) : N := (last + 1) mod M32.
 
-(* newID, sequentially: one increment, and a second one when the low 16 bits are zero.
-   Returns (new counter, identifier). [new_id_fuel] is the recursion of the source with fuel. *)
+(* uniqid.go:31-37 as written: one increment, and the recursive call when the low half is zero.
+   Returns (counter afterwards, identifier); None = out of fuel. *)
 Fixpoint new_id_fuel (fuel : nat) (last : N) : option (N * N) :=
   match fuel with
   | O => None
@@ -19,54 +35,188 @@ Fixpoint new_id_fuel (fuel : nat) (last : N) : option (N * N) :=
            if v mod M16 =? 0 then new_id_fuel f v else Some (v, v mod M16)
   end.
 
+(* the recursion unrolled once; [new_id_fuel_enough] (Ids_proofs.v) shows that for every counter
+   value and every fuel >= 2 the recursion returns exactly this: a sequential caller retries at
+   most once *)
 Definition new_id (last : N) : N * N :=
-  match new_id_fuel 2 last with Some r => r | None => (last, 0) end.
+  let v := add1 last in
+  if v mod M16 =? 0 then let w := add1 v in (w, w mod M16) else (v, v mod M16).
 
-(* a request: Publish with Message.ID = given (0 = let the library choose), or Subscribe /
-   Unsubscribe (always a fresh identifier) *)
-Inductive req := RPub (given : N) | RSub | RUnsub.
+(* ---------- requests ---------- *)
 
+(* Publish with Message.QoS = qos and Message.ID = given (0 = let the library choose), Subscribe,
+   Unsubscribe (the last two always take a fresh identifier) *)
+Inductive req := RPub (qos given : N) | RSub | RUnsub.
+
+Definition is_auto (r : req) : bool :=
+  match r with RPub _ g => g =? 0 | _ => true end.
+
+Definition given_of (r : req) : N :=
+  match r with RPub _ g => g | _ => 0 end.
+
+(* a request that waits for an acknowledgement, i.e. can be outstanding *)
+Definition tracked (r : req) : bool :=
+  match r with RPub q _ => negb (q =? 0) | _ => true end.
+
+(* publish.go:136-138 / subscribe.go:72 / unsubscribe.go:48 *)
 Definition issue1 (last : N) (r : req) : N * N :=
-  match r with
-  | RPub g => if g =? 0 then new_id last else (last, g)
-  | _ => new_id last
-  end.
+  if is_auto r then new_id last else (last, given_of r).
 
-(* identifiers put on the wire by a sequence of requests issued one after the other *)
-Fixpoint issue_seq (last : N) (rs : list req) : list N :=
-  match rs with
+(* ---------- histories and what is observable ---------- *)
+
+(* input: a request is issued, or the peer acknowledges the j-th issued request (0-based, counting
+   every request) *)
+Inductive hev := HReq (r : req) | HAck (j : N).
+
+(* observable: request r of caller k went out with identifier id (for QoS 0 the identifier is
+   what Publish left in Message.ID); the j-th request was acknowledged *)
+Inductive obs := OIssue (k : nat) (r : req) (id : N) | OAck (j : N).
+
+(* one caller, requests one after the other *)
+Fixpoint run_seq (last : N) (h : list hev) : list obs :=
+  match h with
   | [] => []
-  | r :: rest => let '(last', id) := issue1 last r in id :: issue_seq last' rest
+  | HReq r :: rest => let '(last', id) := issue1 last r in OIssue 0 r id :: run_seq last' rest
+  | HAck j :: rest => OAck j :: run_seq last rest
   end.
 
-Fixpoint final_counter (last : N) (rs : list req) : N :=
-  match rs with
+Fixpoint final_counter (last : N) (h : list hev) : N :=
+  match h with
   | [] => last
-  | r :: rest => final_counter (fst (issue1 last r)) rest
+  | HReq r :: rest => final_counter (fst (issue1 last r)) rest
+  | HAck _ :: rest => final_counter last rest
   end.
 
-(* ---------- the counter as a sequence of ticks; any number of concurrent callers ---------- *)
+(* ---------- any number of concurrent callers ---------- *)
 
-(* the t-th atomic increment after the counter held [s] yields this value; increments are atomic,
-   so every increment performed by anybody is exactly one tick of this sequence *)
-Definition tick_value (s : N) (t : N) : N := (s + t) mod M32.
-Definition tick_id (s : N) (t : N) : N := tick_value s t mod M16.
+(* a schedule entry: caller k performs its next atomic step, or the peer acknowledges request j *)
+Inductive label := LStep (k : nat) | LAck (j : N).
 
-(* A schedule says which caller performs the next AddUint32. Caller [k] is inside one newID call:
-   it keeps incrementing until it sees a non-zero low half, then the call returns. The run yields,
-   in completion order, (caller, tick at which its call completed, identifier returned). *)
-Fixpoint conc_run (s : N) (t : N) (sched : list nat) : list (nat * N * N) :=
+Fixpoint set_nth {A} (k : nat) (x : A) (l : list A) : list A :=
+  match l, k with
+  | [], _ => []
+  | _ :: r, O => x :: r
+  | y :: r, S k' => y :: set_nth k' x r
+  end.
+
+(* progs: for every caller the requests it still has to issue. One step of caller k:
+   - head request carries its own identifier: it goes out, counter untouched;
+   - otherwise one AddUint32; low half zero: the caller stays inside newID (nothing observable,
+     the request stays at the head of its program); otherwise the request goes out. *)
+Definition step_caller (c : N) (progs : list (list req)) (k : nat) : N * list (list req) * option obs :=
+  match nth_error progs k with
+  | Some (r :: rest) =>
+      if is_auto r then
+        let v := add1 c in
+        if v mod M16 =? 0 then (v, progs, None)
+        else (v, set_nth k rest progs, Some (OIssue k r (v mod M16)))
+      else (c, set_nth k rest progs, Some (OIssue k r (given_of r)))
+  | _ => (c, progs, None)
+  end.
+
+(* observations in linearisation order *)
+Fixpoint run_conc (c : N) (progs : list (list req)) (sched : list label) : list obs :=
   match sched with
   | [] => []
-  | k :: rest =>
-      let t' := t + 1 in
-      if tick_id s t' =? 0 then conc_run s t' rest           (* caller k retries on its next turn *)
-      else (k, t', tick_id s t') :: conc_run s t' rest
+  | LAck j :: rest => OAck j :: run_conc c progs rest
+  | LStep k :: rest =>
+      let '(c', progs', o) := step_caller c progs k in
+      match o with
+      | Some e => e :: run_conc c' progs' rest
+      | None => run_conc c' progs' rest
+      end
   end.
 
-(* ---------- helpers for the correspondence check ---------- *)
+(* ---------- specification: the identifier sequence in closed form ---------- *)
+
+(* the n-th identifier (n = 0, 1, ...) the library chooses after the counter held s *)
+Definition issued (s n : N) : N := (s mod M16 + n) mod P16 + 1.
+
+Fixpoint issued_list (s n0 : N) (len : nat) : list N :=
+  match len with
+  | O => []
+  | S l => issued s n0 :: issued_list s (n0 + 1) l
+  end.
+
+(* position of identifier x (1..65535) in that sequence: inverse of [issued s] on 0..65534 *)
+Definition idx_of (s x : N) : N := (x + P16 - 1 - (s mod M16) mod P16) mod P16.
+
+(* identifiers the library chose, in order of the observations *)
+Fixpoint auto_ids (l : list obs) : list N :=
+  match l with
+  | [] => []
+  | OIssue _ r id :: rest => if is_auto r then id :: auto_ids rest else auto_ids rest
+  | OAck _ :: rest => auto_ids rest
+  end.
+
+(* ---------- specification: predicates over an observed history ---------- *)
+
+(* an outstanding request whose identifier the library chose:
+   (ordinal among all requests, identifier, ordinal among the library-chosen identifiers) *)
+Definition entry := (N * N * N)%type.
+Definition e_ord (e : entry) : N := fst (fst e).
+Definition e_id (e : entry) : N := snd (fst e).
+Definition e_idx (e : entry) : N := snd e.
+
+(* walk through a history keeping the outstanding library-numbered requests; [chk id na outs] is
+   evaluated whenever the library chooses identifier [id] (its na-th choice) for a request that
+   will wait for an acknowledgement, against the requests outstanding at that moment *)
+Fixpoint scan (chk : N -> N -> list entry -> bool) (tot na : N) (outs : list entry) (l : list obs) : bool :=
+  match l with
+  | [] => true
+  | OAck j :: rest => scan chk tot na (filter (fun e => negb (e_ord e =? j)) outs) rest
+  | OIssue _ r id :: rest =>
+      if is_auto r then
+        if tracked r then chk id na outs && scan chk (tot + 1) (na + 1) ((tot, id, na) :: outs) rest
+        else scan chk (tot + 1) (na + 1) outs rest
+      else scan chk (tot + 1) na outs rest
+  end.
+
+(* the property as stated: the new identifier differs from that of every outstanding request *)
+Definition chk_strict (id na : N) (outs : list entry) : bool :=
+  negb (existsb (fun e => e_id e =? id) outs).
+
+(* ... from that of every outstanding request after which fewer than 65,535 identifiers were
+   chosen, the new one included *)
+Definition chk_young (id na : N) (outs : list entry) : bool :=
+  negb (existsb (fun e => (e_id e =? id) && (na - e_idx e <? P16)) outs).
+
+(* no request stays outstanding while 65,535 further identifiers are chosen *)
+Definition chk_window (id na : N) (outs : list entry) : bool :=
+  forallb (fun e => na - e_idx e <? P16) outs.
+
+(* never more than [m] library-numbered requests outstanding, the new one included *)
+Definition chk_atmost (m : N) (id na : N) (outs : list entry) : bool :=
+  N.of_nat (length outs) + 1 <=? m.
+
+Definition strict_ok (l : list obs) : bool := scan chk_strict 0 0 [] l.
+Definition young_ok (l : list obs) : bool := scan chk_young 0 0 [] l.
+Definition window_ok (l : list obs) : bool := scan chk_window 0 0 [] l.
+Definition atmost_ok (m : N) (l : list obs) : bool := scan (chk_atmost m) 0 0 [] l.
+
+(* identifiers chosen by the library are valid non-zero 16-bit values *)
+Definition nonzero_ok (l : list obs) : bool :=
+  forallb (fun o => match o with
+                    | OIssue _ r id => if is_auto r then (0 <? id) && (id <? M16) else true
+                    | OAck _ => true
+                    end) l.
+
+(* an identifier the caller put on the message is the one used *)
+Definition given_kept (l : list obs) : bool :=
+  forallb (fun o => match o with
+                    | OIssue _ r id => if is_auto r then true else id =? given_of r
+                    | OAck _ => true
+                    end) l.
+
+(* ---------- helpers ---------- *)
 Fixpoint nodup_b (l : list N) : bool :=
   match l with
   | [] => true
   | x :: r => negb (existsb (N.eqb x) r) && nodup_b r
   end.
+
+(* finding F13 as a history: request 0 is never acknowledged; requests 1..n are acknowledged at
+   once. Built back to front so that it is linear in n. *)
+Definition f13_history (n : N) : list hev :=
+  HReq (RPub 1 0) ::
+  snd (N.iter n (fun st => let '(k, l) := st in (k - 1, HReq (RPub 1 0) :: HAck k :: l)) (n, [])).
